@@ -157,7 +157,7 @@ PROPS = {
                 "compared with later results, two results must not overlap; non-receiver operands keep their value. Non-trivial = an input "
                 "slice with cap > len / interior / shared, any slice-returning call, or a pointer argument in a non-default representation. After every hashing case three later calls with short arguments run and the earlier buffers are re-checked (a buffer stays the caller's after the call returned).",
         "units": [unit("props", "^TestC15", tier(120000, 8, 900), tier(4800000, 16, 5400))],
-        "checks_expected": ["C15/memory", "C15/retention"],
+        "checks_expected": ["C15/memory", "C15/retention", "C15/read-only-arguments"],
     },
     "C18": {
         "rule": "entropy scripts substituted for crypto/rand.Reader: 0..4 blocks congruent to 0 mod n (0 or n) followed by a usable block "
@@ -198,7 +198,7 @@ PROPS = {
                 "and internal/scalar recorded during Multiply(k) equals, in length and order, the sequence recorded during Multiply(0) on "
                 "a copy of the same point (about 78 900 entries). Non-trivial = k != 0. Distinct by case hash. Scalars include the algebraic constants of n (endomorphism eigenvalue) and Montgomery-domain patterns; the trace of a second Multiply by the same scalar value must also be identical (history independence).",
         "units": [unit("trace", "^TestC19", tier(12000, 8, 900), tier(480000, 16, 5400), overlay="trace")],
-        "checks_expected": ["C19/schedule"],
+        "checks_expected": ["C19/schedule", "C19/long-run"],
         "assumptions": ["granularity is function entry in internal/*: data-dependent branches inside one function, memory access patterns and real timing are not observed"],
     },
 }
